@@ -715,7 +715,7 @@ func intValueFromInt(msg protoreflect.Message, val intable) (fhir.Base, error) {
 	if valueField != nil {
 		var intValue protoreflect.Value
 		switch valueField.Kind() {
-		case protoreflect.Int32Kind:
+		case protoreflect.Int32Kind, protoreflect.Sint32Kind, protoreflect.Sfixed32Kind:
 			intValue = protoreflect.ValueOfInt32(val.GetValue())
 		case protoreflect.Uint32Kind:
 			if val.GetValue() < 0 {
@@ -723,6 +723,9 @@ func intValueFromInt(msg protoreflect.Message, val intable) (fhir.Base, error) {
 			}
 			intValue = protoreflect.ValueOfUint32(uint32(val.GetValue()))
 		default:
+			// Not an integer-valued target: nothing to normalize; the caller's
+			// type check reports the mismatch.
+			return nil, nil
 		}
 		container.Set(valueField, intValue)
 		return container.Interface(), nil
